@@ -21,7 +21,7 @@ gvars == <<cfg, desired, kernel, belief, phase, known, hist>>
 GInit == \E c \in Cfgs, k \in StartKernels :
             /\ (DOMAIN k = {} => c.ownsAll)
             /\ cfg = c /\ kernel = k
-            /\ desired = [chains |-> [x \in {} |-> <<>>], ins |-> [x \in KCh |-> <<>>], app |-> [x \in KCh |-> <<>>]]
+            /\ desired = [chains |-> [x \in {} |-> <<>>], force |-> {}, ins |-> [x \in KCh |-> <<>>], app |-> [x \in KCh |-> <<>>]]
             /\ belief = [stale |-> TRUE, due |-> TRUE]
             /\ phase = [inApply |-> FALSE, readFailed |-> FALSE, envFail |-> FALSE, notified |-> FALSE, consistent |-> TRUE]
             /\ known = {}
@@ -29,6 +29,7 @@ GInit == \E c \in Cfgs, k \in StartKernels :
 
 Step(a, r) == a /\ hist' = Append(hist, r)
 NoEdit == [kind |-> "none"]
+SetToSeqG(S) == CHOOSE q \in [1..Cardinality(S) -> S] : \A i, k \in 1..Cardinality(S) : i # k => q[i] # q[k]
 Pick(S) == IF Sim /\ S # {} THEN {RandomElement(S)} ELSE S
 Rarely(n) == IF Sim THEN RandomElement(1..n) = 1 ELSE TRUE
 
@@ -45,12 +46,18 @@ GApply(fw, fr, pre, e, prefail) ==
 
 \* complete desired states over the first kernel chain (the others stay unhooked)
 K1 == "K1"
-Des(ch, i, a) == [chains |-> ch, ins |-> [k \in KCh |-> IF k = K1 THEN i ELSE <<>>], app |-> [k \in KCh |-> IF k = K1 THEN a ELSE <<>>]]
+Des(ch, fs, i, a) == [chains |-> ch, force |-> fs, ins |-> [k \in KCh |-> IF k = K1 THEN i ELSE <<>>], app |-> [k \in KCh |-> IF k = K1 THEN a ELSE <<>>]]
+AB(ra, rb) == [c \in {"cali-a", "cali-b"} |-> IF c = "cali-a" THEN ra ELSE rb]
 DesiredMenu ==
-    { Des([c \in {} |-> <<>>], <<>>, <<>>),
-      Des([c \in {"cali-a"} |-> <<b(1)>>], <<b(3), j(5, "cali-a")>>, <<>>),
-      Des([c \in {"cali-a", "cali-b"} |-> IF c = "cali-a" THEN <<b(1), j(2, "cali-b")>> ELSE <<b(1)>>], <<b(3), j(5, "cali-a")>>, <<b(4)>>),
-      Des([c \in {"cali-a", "cali-b"} |-> IF c = "cali-a" THEN <<b(1), b(2)>> ELSE <<b(2)>>], <<j(5, "cali-a")>>, <<b(4)>>) }
+    { Des([c \in {} |-> <<>>], {}, <<>>, <<>>),
+      Des([c \in {"cali-a"} |-> <<b(1)>>], {}, <<b(3), j(5, "cali-a")>>, <<>>),
+      Des(AB(<<b(1), j(2, "cali-b")>>, <<b(1)>>), {}, <<b(3), j(5, "cali-a")>>, <<b(4)>>),
+      Des(AB(<<b(1), b(2)>>, <<b(2)>>), {}, <<j(5, "cali-a")>>, <<b(4)>>),
+      \* a referenced chain with zero rules
+      Des(AB(<<b(1), j(2, "cali-b")>>, <<>>), {}, <<j(5, "cali-a")>>, <<>>),
+      \* a force-programmed parent that nothing else references, with a child; and the child alone
+      Des(AB(<<b(1), j(2, "cali-b")>>, <<b(1)>>), {"cali-a"}, <<b(3)>>, <<>>),
+      Des([c \in {"cali-b"} |-> <<b(1)>>], {}, <<b(3)>>, <<>>) }
 GProgram(d) == Idle /\ desired # d /\ desired' = d /\ UNCHANGED <<cfg, kernel, belief, phase, known>>
 
 ApplyRec(fw, fr, pre, e, prefail) == [op |-> "apply", fw |-> fw, fr |-> fr, pre |-> pre, edit |-> e, prefail |-> prefail]
@@ -58,10 +65,10 @@ ApplyRec(fw, fr, pre, e, prefail) == [op |-> "apply", fw |-> fw, fr |-> fr, pre 
 GNext ==
   \/ /\ Len(hist) = SimLen /\ hist' = Append(hist, [op |-> "end"]) /\ UNCHANGED vars
   \/ /\ Len(hist) < SimLen
-     /\ \/ Composite /\ \E d \in DesiredMenu : Step(GProgram(d), [op |-> "program", chains |-> d.chains, ins |-> d.ins[K1], app |-> d.app[K1]])
-        \/ ~Composite /\ \E c \in Pick(DesChains) : \E rs \in Pick(ChainMenu(c)) :
-              /\ (IF c \in DOMAIN desired.chains THEN desired.chains[c] # rs ELSE TRUE)
-              /\ Step(SetChain(c, rs), [op |-> "set_chain", name |-> c, rules |-> rs])
+     /\ \/ Composite /\ \E d \in DesiredMenu : Step(GProgram(d), [op |-> "program", chains |-> d.chains, force |-> SetToSeqG(d.force), ins |-> d.ins[K1], app |-> d.app[K1]])
+        \/ ~Composite /\ \E c \in Pick(DesChains) : \E m \in Pick(ChainMenu(c)) :
+              /\ (IF c \in DOMAIN desired.chains THEN desired.chains[c] # m.rules \/ (c \in desired.force) # m.force ELSE TRUE)
+              /\ Step(SetChain(c, m.rules, m.force), [op |-> "set_chain", name |-> c, rules |-> m.rules, force |-> m.force])
         \/ ~Composite /\ Rarely(3) /\ \E c \in Pick(DOMAIN desired.chains) : Step(RemoveChain(c), [op |-> "remove_chain", name |-> c])
         \/ ~Composite /\ \E k \in Pick(KCh), rs \in Pick(InsMenu) : desired.ins[k] # rs /\ Step(SetIns(k, rs), [op |-> "set_ins", chain |-> k, rules |-> rs])
         \/ ~Composite /\ \E k \in Pick(KCh), rs \in Pick(AppMenu) : desired.app[k] # rs /\ Step(SetApp(k, rs), [op |-> "set_app", chain |-> k, rules |-> rs])
